@@ -268,6 +268,9 @@ package varmq
 //@   assert [guard-fresh] before call varmq.worker.processNextJob: $sfresh && $cfresh && $pfresh
 //@   assert [sleep-only-when-idle] at backedge loop1: !($deref(w).status == running && $deref(w).curProcessing < $deref(w).concurrency
 //@                          && @sumLen($deref(w).queues.Manager.items, len($deref(w).queues.Manager.items)) > 0)
+// lost wake-up: every signal the dispatcher consumes is followed by a fresh evaluation of the guard before it parks again
+//@   ghost after recv: $sfresh := false
+//@   assert [recheck-after-wake] at backedge loop1: $sfresh
 //@   ghost after call varmq.worker.processNextJob: $sfresh := false
 //@   ghost after call varmq.worker.processNextJob: $cfresh := false
 //@   ghost after call varmq.worker.processNextJob: $pfresh := false
